@@ -474,6 +474,16 @@ def run(cfg):
             try:
                 ge = grad(info.elem(x))
                 g = S.to_flat(ge).astype(float)
+                if S.has_layout(info.space):
+                    xf = S.from_flat_F(info.space, x)
+                    gf = S.to_flat(grad(xf)).astype(float)
+                    vf, vc = float(np.real(f(xf))), float(np.real(f(info.elem(x))))
+                    evals += 2
+                    if not np.array_equal(gf, g, equal_nan=True) or not _eq(vf, vc, 1e-14):
+                        first.setdefault('value_or_gradient_depends_on_memory_layout_of_x',
+                                         'x=%s: f=%r grad=%s for C-ordered x, f=%r grad=%s for the '
+                                         'same x wrapping a Fortran-ordered array'
+                                         % (x.tolist(), vc, g.tolist(), vf, gf.tolist()))
             except NotImplementedError:
                 grad = None
                 break
